@@ -18,15 +18,12 @@ class TPMS_PARAMS:
     @lru_cache(maxsize=None)
     def encrypted(cls):
         """Returns a modified type where first parameter type is TPM2B_ENCRYPTED_PARAM. Result is cached to enable equality checks on it."""
-        new_type = type(cls.__name__, (), {})
+        params = getattr(cls, "__annotations__", {})
+        if not params or not list(params.values())[0].__name__.startswith("TPM2B"):
+            # only a leading TPM2B parameter can be encrypted, otherwise the area is plain
+            return cls
 
-        assert hasattr(
-            cls, "__annotations__"
-        ), f"Parameter encryption failed: {cls.__name__} does not seem to have any parameters"
-        params = cls.__annotations__
-        assert list(params.values())[0].__name__.startswith(
-            "TPM2B"
-        ), f"Parameter encryption failed: expected TPM2B type for first param of {cls.__name__}, but found {list(params.values())[0].__name__} {list(params.keys())[0]}"
+        new_type = type(cls.__name__, (), {})
         first_param = {list(params.keys())[0]: TPM2B_ENCRYPTED_PARAM}
         other_params = dict(list(params.items())[1:])
 
